@@ -1,10 +1,507 @@
-import Hpl.Model.Rewrite.Split
-import Hpl.Spec.Eval
+import Hpl.Lemmas.Eval
+import Hpl.Lemmas.OptList
 import Hpl.Spec.Shapes
-/-! # C09 — `split_and` returns an equivalent list of indivisible conjuncts (theorems: see below; in progress) -/
-namespace Hpl
+/-!
+# C09 — `split_and` returns an equivalent list of indivisible conjuncts
 
+Model: `Hpl/Model/Rewrite/Split.lean`. Spec: `truth` (the boolean value of `Hpl.Spec.Eval.eval`, errors collapsed) and
+`indivisible` (`Hpl/Spec/Shapes.lean`).
+
+Equivalence is stated as *refinement*: wherever every returned conjunct is defined, the input is defined and has the
+value of their conjunction (`splitAnd_equiv`). The property speaks of truth values on valuations and says nothing about
+evaluation errors; refinement is used because it is transitive and so composes through the pre-split transformations
+and the work list. Every step is exact (`truth` equal, undefinedness included) except the one the code's own guard
+creates: a conjunct hoisted out of a universal quantifier as `len(d) = 0 or p` is evaluated even when `d` is empty.
+-/
+namespace Hpl
+section
+variable (opq : Opaque)
+
+/-! ## vocabulary -/
+/-- `e` evaluates like `e'` under every valuation (stored types are irrelevant to evaluation) -/
+def EvalLike (e e' : Expr) : Prop := ∀ ρ, eval opq ρ e = eval opq ρ e'
+
+theorem truth_of_like {e e' : Expr} (h : EvalLike opq e e') (ρ : Env) : truth opq ρ e = truth opq ρ e' := by
+  unfold truth; rw [h ρ]
+
+/-- `e'` refines `e`: wherever the rewritten form has a truth value, the original has the same one -/
+def Refines (e' e : Expr) : Prop := ∀ ρ v, truth opq ρ e' = some v → truth opq ρ e = some v
+
+theorem Refines.refl (e : Expr) : Refines opq e e := fun _ _ h => h
+theorem Refines.trans {a b c : Expr} (h1 : Refines opq a b) (h2 : Refines opq b c) : Refines opq a c :=
+  fun ρ v h => h2 ρ v (h1 ρ v h)
+theorem Refines.of_eq {a b : Expr} (h : ∀ ρ, truth opq ρ a = truth opq ρ b) : Refines opq a b :=
+  fun ρ v hv => by rw [← h ρ]; exact hv
+
+theorem mkNot_like {a e : Expr} (h : mkNot a = .ok e) : EvalLike opq e (.un T.BOOL Gen.NOT_OPERATOR a) :=
+  fun ρ => by rw [mkUn_eval opq h]; simp only [eval]
+theorem mkAnd_like {a b e : Expr} (h : mkAnd a b = .ok e) : EvalLike opq e (.bin T.BOOL Gen.AND_OPERATOR a b) :=
+  fun ρ => by rw [mkBin_eval opq h]; simp only [eval]
+theorem mkOr_like {a b e : Expr} (h : mkOr a b = .ok e) : EvalLike opq e (.bin T.BOOL Gen.OR_OPERATOR a b) :=
+  fun ρ => by rw [mkBin_eval opq h]; simp only [eval]
+theorem mkForall_like {x : String} {d p e : Expr} (h : mkForall x d p = .ok e) : EvalLike opq e (.quant T.BOOL .all x d p) :=
+  fun ρ => mkQuant_eval opq h ρ
+
+/-! ## quantifiers through `allO` / `anyO` -/
+theorem truth_forall (ρ : Env) (t : DataType) (x : String) (d b : Expr) :
+    truth opq ρ (.quant t .all x d b) = (domElems opq ρ d).bind (fun es => allO es (fun v => truth opq (ρ.bind x v) b)) := by
+  rw [truth_quant]
+  cases domElems opq ρ d with
+  | none => rfl
+  | some es =>
+    simp only [bind, Option.bind, allO, quantResult]
+    cases es.mapM (fun v => truth opq (ρ.bind x v) b) <;> rfl
+
+theorem truth_exists (ρ : Env) (t : DataType) (x : String) (d b : Expr) :
+    truth opq ρ (.quant t .some x d b) = (domElems opq ρ d).bind (fun es => anyO es (fun v => truth opq (ρ.bind x v) b)) := by
+  rw [truth_quant]
+  cases domElems opq ρ d with
+  | none => rfl
+  | some es =>
+    simp only [bind, Option.bind, anyO, quantResult]
+    cases es.mapM (fun v => truth opq (ρ.bind x v) b) <;> rfl
+
+/-! ## exact rewrites -/
+theorem truth_notNot (ρ : Env) (t1 t2 : DataType) (p : Expr) :
+    truth opq ρ (.un t1 Gen.NOT_OPERATOR (.un t2 Gen.NOT_OPERATOR p)) = truth opq ρ p := by
+  rw [truth_not, truth_not]
+  cases truth opq ρ p <;> simp
+
+theorem truth_deMorgan (ρ : Env) (t1 t2 t3 t4 t5 : DataType) (a b : Expr) :
+    truth opq ρ (.bin t1 Gen.AND_OPERATOR (.un t2 Gen.NOT_OPERATOR a) (.un t3 Gen.NOT_OPERATOR b)) =
+    truth opq ρ (.un t4 Gen.NOT_OPERATOR (.bin t5 Gen.OR_OPERATOR a b)) := by
+  rw [truth_and, truth_not, truth_not, truth_not, truth_or]
+  cases truth opq ρ a <;> cases truth opq ρ b <;> simp [bind, Option.bind, pure]
+
+theorem truth_notImp (ρ : Env) (t1 t2 t3 t4 : DataType) (a b : Expr) :
+    truth opq ρ (.bin t1 Gen.AND_OPERATOR a (.un t2 Gen.NOT_OPERATOR b)) =
+    truth opq ρ (.un t3 Gen.NOT_OPERATOR (.bin t4 Gen.IMPLIES_OPERATOR a b)) := by
+  rw [truth_and, truth_not, truth_not, truth_implies]
+  cases truth opq ρ a <;> cases truth opq ρ b <;> simp [bind, Option.bind, pure]
+
+theorem truth_notExists (ρ : Env) (t1 t2 t3 t4 : DataType) (x : String) (d p : Expr) :
+    truth opq ρ (.quant t1 .all x d (.un t2 Gen.NOT_OPERATOR p)) =
+    truth opq ρ (.un t3 Gen.NOT_OPERATOR (.quant t4 .some x d p)) := by
+  rw [truth_forall, truth_not, truth_exists]
+  cases domElems opq ρ d with
+  | none => rfl
+  | some es =>
+    simp only [Option.bind]
+    rw [anyO_not]
+    apply allO_congr
+    intro v; rw [truth_not]
+
+/-- congruence: refining the body refines the universal quantifier -/
+theorem refines_forall (t1 t2 : DataType) (x : String) (d p' p : Expr) (h : Refines opq p' p) :
+    Refines opq (.quant t1 .all x d p') (.quant t2 .all x d p) := by
+  intro ρ v hv
+  rw [truth_forall] at hv ⊢
+  cases hd : domElems opq ρ d with
+  | none => simp [hd, Option.bind] at hv
+  | some es =>
+    simp only [hd, Option.bind] at hv ⊢
+    exact allO_mono es _ _ (fun w r hr => h _ r hr) v hv
+
+/-! ## the quantifier split -/
+/-- what either form of a split half says: the universal statement over the domain -/
+theorem splitHalf_spec {x : String} {d a h : Expr} (hh : splitHalf x d a = .ok h) (ρ : Env) (v : Bool)
+    (hv : truth opq ρ h = some v) :
+    ∃ es, domElems opq ρ d = some es ∧ allO es (fun w => truth opq (ρ.bind x w) a) = some v := by
+  unfold splitHalf at hh
+  split at hh
+  · -- still quantified
+    rw [truth_of_like opq (mkForall_like opq hh), truth_forall] at hv
+    cases hd : domElems opq ρ d with
+    | none => simp [hd, Option.bind] at hv
+    | some es => exact ⟨es, rfl, by simpa [hd, Option.bind] using hv⟩
+  · -- hoisted behind the empty-domain guard
+    rename_i hx
+    obtain ⟨te, hte, hh⟩ := bind_ok hh
+    rw [truth_of_like opq (mkOr_like opq hh), truth_or, truth_emptyTest opq hte] at hv
+    cases hd : domElems opq ρ d with
+    | none => simp [hd, bind, Option.bind] at hv
+    | some es =>
+      cases ha : truth opq ρ a with
+      | none => simp [hd, ha, bind, Option.bind] at hv
+      | some b =>
+        simp [hd, ha, bind, Option.bind, pure] at hv
+        refine ⟨es, rfl, ?_⟩
+        have hconst : ∀ w, truth opq (ρ.bind x w) a = some b := by
+          intro w
+          rw [truth_bind_unused opq ρ x w a (by simpa using hx), ha]
+        rw [allO_congr es _ (fun _ => some b) hconst, allO_const, hv]
+
+/-- `(A x: a and b)` is refined by `half a and half b` -/
+theorem refines_forallAnd {x : String} {d a b qa qb c : Expr} (t1 t2 : DataType)
+    (ha : splitHalf x d a = .ok qa) (hb : splitHalf x d b = .ok qb) (hc : mkAnd qa qb = .ok c) :
+    Refines opq c (.quant t1 .all x d (.bin t2 Gen.AND_OPERATOR a b)) := by
+  intro ρ v hv
+  rw [truth_of_like opq (mkAnd_like opq hc), truth_and] at hv
+  cases hqa : truth opq ρ qa with
+  | none => simp [hqa, bind, Option.bind] at hv
+  | some va =>
+    cases hqb : truth opq ρ qb with
+    | none => simp [hqa, hqb, bind, Option.bind] at hv
+    | some vb =>
+      simp [hqa, hqb, bind, Option.bind, pure] at hv
+      obtain ⟨es, hd, hxa⟩ := splitHalf_spec opq ha ρ va hqa
+      obtain ⟨es', hd', hxb⟩ := splitHalf_spec opq hb ρ vb hqb
+      rw [hd] at hd'; cases hd'
+      rw [truth_forall, hd]
+      simp only [Option.bind]
+      have := allO_and es (fun w => truth opq (ρ.bind x w) a) (fun w => truth opq (ρ.bind x w) b)
+      rw [allO_congr es _ _ (fun w => truth_and opq (ρ.bind x w) t2 a b), this, hxa, hxb]
+      simp [bind, Option.bind, pure, hv]
+
+/-! ## the pre-split transformations refine their input, and return a conjunction or something indivisible -/
+theorem beq_eq {a b : String} (h : (a == b) = true) : a = b := by simpa using h
+
+theorem presplit_refines : ∀ f,
+    (∀ e e', presplit f e = .ok e' → Refines opq e' e) ∧
+    (∀ t phi e', splitNot f (.un t Gen.NOT_OPERATOR phi) phi = .ok e' → Refines opq e' (.un t Gen.NOT_OPERATOR phi)) ∧
+    (∀ t q x d phi e', splitQuant f (.quant t q x d phi) q x d phi = .ok e' → Refines opq e' (.quant t q x d phi)) := by
+  intro f
+  induction f with
+  | zero =>
+    refine ⟨?_, ?_, ?_⟩
+    · intro e e' h; simp [presplit] at h
+    · intro t phi e' h; simp [splitNot] at h
+    · intro t q x d phi e' h; simp [splitQuant] at h
+  | succ f ih =>
+    obtain ⟨ih1, ih2, ih3⟩ := ih
+    refine ⟨?_, ?_, ?_⟩
+    · -- presplit
+      intro e e' h
+      cases e with
+      | un t op phi =>
+        simp only [presplit] at h
+        split at h
+        · rename_i hop
+          have := beq_eq hop; subst this
+          exact ih2 t phi e' h
+        · cases h; exact Refines.refl opq _
+      | quant t q x d phi =>
+        simp only [presplit] at h
+        exact ih3 t q x d phi e' h
+      | _ => simp only [presplit] at h; cases h; exact Refines.refl opq _
+    · -- splitNot
+      intro t phi e' h
+      cases phi with
+      | un t2 op p =>
+        simp only [splitNot] at h
+        split at h
+        · rename_i hop
+          have := beq_eq hop; subst this
+          exact Refines.trans opq (ih1 p e' h) (Refines.of_eq opq (fun ρ => (truth_notNot opq ρ t t2 p).symm))
+        · cases h; exact Refines.refl opq _
+      | bin t2 op a b =>
+        simp only [splitNot] at h
+        split at h
+        · rename_i hop
+          have := beq_eq hop; subst this
+          obtain ⟨na, hna, h⟩ := bind_ok h
+          obtain ⟨nb, hnb, h⟩ := bind_ok h
+          apply Refines.of_eq
+          intro ρ
+          rw [truth_of_like opq (mkAnd_like opq h), truth_and, truth_of_like opq (mkNot_like opq hna),
+            truth_of_like opq (mkNot_like opq hnb), ← truth_and opq ρ T.BOOL]
+          exact truth_deMorgan opq ρ _ _ _ _ _ a b
+        · split at h
+          · rename_i hop
+            have := beq_eq hop; subst this
+            obtain ⟨nb, hnb, h⟩ := bind_ok h
+            apply Refines.of_eq
+            intro ρ
+            rw [truth_of_like opq (mkAnd_like opq h), truth_and, truth_of_like opq (mkNot_like opq hnb), ← truth_and opq ρ T.BOOL]
+            exact truth_notImp opq ρ _ _ _ _ a b
+          · cases h; exact Refines.refl opq _
+      | quant t2 q x d p =>
+        cases q with
+        | all => simp only [splitNot] at h; cases h; exact Refines.refl opq _
+        | some =>
+          simp only [splitNot] at h
+          obtain ⟨np, hnp, h⟩ := bind_ok h
+          split at h
+          · obtain ⟨qq, hqq, h⟩ := bind_ok h
+            split at h
+            · rename_i t3 q' x' d' phi'
+              have hr := ih3 t3 q' x' d' phi' e' h
+              refine Refines.trans opq hr (Refines.of_eq opq (fun ρ => ?_))
+              rw [truth_of_like opq (mkForall_like opq hqq), truth_forall, ← truth_forall opq ρ T.BOOL,
+                ← truth_notExists opq ρ T.BOOL T.BOOL t t2, truth_forall, truth_forall]
+              cases domElems opq ρ d with
+              | none => rfl
+              | some es =>
+                simp only [Option.bind]
+                apply allO_congr
+                intro v
+                exact truth_of_like opq (mkNot_like opq hnp) _
+            · cases h
+          · cases h
+      | _ => simp only [splitNot] at h; cases h; exact Refines.refl opq _
+    · -- splitQuant
+      intro t q x d phi e' h
+      cases q with
+      | some => simp only [splitQuant] at h; cases h; exact Refines.refl opq _
+      | all =>
+        simp only [splitQuant] at h
+        obtain ⟨phi', hphi', h⟩ := bind_ok h
+        have hr := ih1 phi phi' hphi'
+        split at h
+        · rename_i t2 op a b
+          split at h
+          · rename_i hop
+            have := beq_eq hop; subst this
+            obtain ⟨qa, hqa, h⟩ := bind_ok h
+            obtain ⟨qb, hqb, h⟩ := bind_ok h
+            exact Refines.trans opq (refines_forallAnd opq t t2 hqa hqb h) (refines_forall opq t t x d _ phi hr)
+          · cases h; exact Refines.refl opq _
+        · cases h; exact Refines.refl opq _
+
+/-! ## the work list -/
+/-- strict conjunction of a list of formulas -/
+def truthAll (ρ : Env) (ps : List Expr) : Option Bool := allO ps (truth opq ρ)
+
+theorem truthAll_cons (ρ : Env) (p : Expr) (ps : List Expr) :
+    truthAll opq ρ (p :: ps) = (do let a ← truth opq ρ p; let b ← truthAll opq ρ ps; pure (a && b)) := allO_cons p ps _
+
+theorem splitLoop_refines : ∀ (f : Nat) (stack acc ps : List Expr), splitLoop f stack acc = .ok ps →
+    ∀ ρ v, truthAll opq ρ ps = some v → truthAll opq ρ (stack ++ acc) = some v := by
+  intro f
+  induction f with
+  | zero => intro stack acc ps h; simp [splitLoop] at h
+  | succ f ih =>
+    intro stack acc ps h ρ v hv
+    cases stack with
+    | nil => simp only [splitLoop] at h; cases h; simpa using hv
+    | cons e stack =>
+      simp only [splitLoop] at h
+      split at h
+      · -- literal True: skipped
+        rename_i ht
+        have := ih stack acc ps h ρ v hv
+        rw [List.cons_append, truthAll_cons]
+        have hte : truth opq ρ e = some true := by
+          cases e with
+          | lit t k lv => cases lv with
+            | bool b => cases b <;> simp_all [isTrueLit, truth_lit_bool]
+            | _ => simp [isTrueLit] at ht
+          | _ => simp [isTrueLit] at ht
+        simp [hte, this, bind, Option.bind, pure]
+      · split at h
+        · cases h
+        · obtain ⟨e', he', h⟩ := bind_ok h
+          have hr := (presplit_refines opq _).1 e e' he'
+          -- in every branch the new work list is a permutation of (e' :: stack) ++ acc, up to splitting a conjunction
+          have key : truthAll opq ρ ((e' :: stack) ++ acc) = some v → truthAll opq ρ ((e :: stack) ++ acc) = some v := by
+            intro h'
+            rw [List.cons_append, truthAll_cons] at h' ⊢
+            cases he : truth opq ρ e' with
+            | none => simp [he, bind, Option.bind] at h'
+            | some a => rw [hr ρ a he]; rw [he] at h'; exact h'
+          apply key
+          have appendCase : splitLoop f stack (acc ++ [e']) = .ok ps → truthAll opq ρ ((e' :: stack) ++ acc) = some v := by
+            intro h2
+            have := ih stack (acc ++ [e']) ps h2 ρ v hv
+            unfold truthAll at this ⊢
+            rw [← List.append_assoc, allO_append] at this
+            rw [List.cons_append, allO_cons]
+            rw [show allO [e'] (truth opq ρ) = (do let a ← truth opq ρ e'; pure (a && true)) from by
+              rw [allO_cons, allO_nil]; cases truth opq ρ e' <;> rfl] at this
+            generalize allO (stack ++ acc) (truth opq ρ) = tr at this ⊢
+            generalize truth opq ρ e' = te at this ⊢
+            cases tr <;> cases te <;> simp_all [bind, Option.bind, pure, Bool.and_comm]
+          split at h
+          · rename_i t op a b
+            split at h
+            · rename_i hop
+              have := beq_eq hop; subst this
+              have := ih (b :: a :: stack) acc ps h ρ v hv
+              rw [List.cons_append, List.cons_append, truthAll_cons, truthAll_cons] at this
+              rw [List.cons_append, truthAll_cons, truth_and]
+              generalize truth opq ρ a = ta at this ⊢
+              generalize truth opq ρ b = tb at this ⊢
+              generalize truthAll opq ρ (stack ++ acc) = tr at this ⊢
+              cases ta <;> cases tb <;> cases tr <;>
+                simp_all [bind, Option.bind, pure, Bool.and_comm, Bool.and_left_comm]
+            · exact appendCase h
+          · exact appendCase h
+
+/-- **C09 (equivalence)**: on every valuation under which all returned expressions have a truth value, the input has
+    the truth value of their conjunction -/
+theorem splitAnd_equiv (e : Expr) (ps : List Expr) (h : splitAnd e = .ok ps) (ρ : Env) (v : Bool)
+    (hv : truthAll opq ρ ps = some v) : truth opq ρ e = some v := by
+  have := splitLoop_refines opq _ [e] [] ps h ρ v hv
+  simp only [List.append_nil] at this
+  unfold truthAll at this
+  rw [allO_cons, allO_nil] at this
+  cases ht : truth opq ρ e with
+  | none => simp [ht, bind, Option.bind] at this
+  | some a => simpa [ht, bind, Option.bind, pure] using this
+
+end
+
+/-! ## shape of the result -/
 theorem indivisible_not_conj (e : Expr) (h : indivisible e = true) : e.isConj = false := by
   cases e <;> simp_all [indivisible, Expr.isConj]
+
+theorem mkAnd_isAnd {a b e : Expr} (h : mkAnd a b = .ok e) : isAnd e = true := by
+  obtain ⟨t, a', b', rfl⟩ := mkBin_shape h
+  simp [isAnd]
+
+theorem presplit_bin {f : Nat} {t : DataType} {op : String} {a b e' : Expr} (h : presplit f (.bin t op a b) = .ok e') :
+    e' = .bin t op a b := by
+  cases f with
+  | zero => simp [presplit] at h
+  | succ f => simp only [presplit] at h; cases h; rfl
+
+/-- every pre-split transformation returns a conjunction or an indivisible expression -/
+theorem presplit_shape : ∀ f,
+    (∀ e e', presplit f e = .ok e' → isAnd e' = true ∨ indivisible e' = true) ∧
+    (∀ t phi e', splitNot f (.un t Gen.NOT_OPERATOR phi) phi = .ok e' → isAnd e' = true ∨ indivisible e' = true) ∧
+    (∀ t q x d phi e', splitQuant f (.quant t q x d phi) q x d phi = .ok e' → isAnd e' = true ∨ indivisible e' = true) := by
+  intro f
+  induction f with
+  | zero =>
+    refine ⟨?_, ?_, ?_⟩
+    · intro e e' h; simp [presplit] at h
+    · intro t phi e' h; simp [splitNot] at h
+    · intro t q x d phi e' h; simp [splitQuant] at h
+  | succ f ih =>
+    obtain ⟨ih1, ih2, ih3⟩ := ih
+    refine ⟨?_, ?_, ?_⟩
+    · intro e e' h
+      cases e with
+      | un t op phi =>
+        simp only [presplit] at h
+        split at h
+        · rename_i hop
+          have := beq_eq hop; subst this
+          exact ih2 t phi e' h
+        · rename_i hop; cases h; right; simp [indivisible, hop]
+      | quant t q x d phi => simp only [presplit] at h; exact ih3 t q x d phi e' h
+      | bin t op a b =>
+        simp only [presplit] at h; cases h
+        by_cases hop : (op == Gen.AND_OPERATOR) = true
+        · left; simp [isAnd, hop]
+        · right; simp only [indivisible]; simpa using hop
+      | _ => simp only [presplit] at h; cases h; right; rfl
+    · intro t phi e' h
+      cases phi with
+      | un t2 op p =>
+        simp only [splitNot] at h
+        split at h
+        · exact ih1 p e' h
+        · rename_i hop; cases h; right; simp [indivisible, Expr.isDisjn, Expr.isImpl, Expr.isNeg, Expr.isExists, hop]
+      | bin t2 op a b =>
+        simp only [splitNot] at h
+        split at h
+        · obtain ⟨na, _, h⟩ := bind_ok h
+          obtain ⟨nb, _, h⟩ := bind_ok h
+          left; exact mkAnd_isAnd h
+        · rename_i hor
+          split at h
+          · obtain ⟨nb, _, h⟩ := bind_ok h
+            left; exact mkAnd_isAnd h
+          · rename_i himp; cases h; right
+            simp [indivisible, Expr.isDisjn, Expr.isImpl, Expr.isNeg, Expr.isExists, hor, himp]
+      | quant t2 q x d p =>
+        cases q with
+        | all => simp only [splitNot] at h; cases h; right; simp [indivisible, Expr.isDisjn, Expr.isImpl, Expr.isNeg, Expr.isExists]
+        | some =>
+          simp only [splitNot] at h
+          obtain ⟨np, _, h⟩ := bind_ok h
+          split at h
+          · obtain ⟨qq, _, h⟩ := bind_ok h
+            split at h
+            · exact ih3 _ _ _ _ _ e' h
+            · cases h
+          · cases h
+      | _ => simp only [splitNot] at h; cases h; right; simp [indivisible, Expr.isDisjn, Expr.isImpl, Expr.isNeg, Expr.isExists]
+    · intro t q x d phi e' h
+      cases q with
+      | some => simp only [splitQuant] at h; cases h; right; rfl
+      | all =>
+        simp only [splitQuant] at h
+        obtain ⟨phi', hphi', h⟩ := bind_ok h
+        split at h
+        · rename_i t2 op a b
+          split at h
+          · obtain ⟨qa, _, h⟩ := bind_ok h
+            obtain ⟨qb, _, h⟩ := bind_ok h
+            left; exact mkAnd_isAnd h
+          · rename_i hop; cases h; right
+            -- the original body is not a conjunction: otherwise presplit would have returned it unchanged
+            simp only [indivisible, Bool.not_eq_true']
+            cases phi with
+            | bin t3 op3 a3 b3 =>
+              have := presplit_bin hphi'
+              cases this
+              simpa [Expr.isConj] using hop
+            | _ => rfl
+        · rename_i hnb; cases h; right
+          simp only [indivisible, Bool.not_eq_true']
+          cases phi with
+          | bin t3 op3 a3 b3 =>
+            have := presplit_bin hphi'
+            exact absurd this (hnb t3 op3 a3 b3)
+          | _ => rfl
+
+theorem splitLoop_indivisible : ∀ (f : Nat) (stack acc ps : List Expr), splitLoop f stack acc = .ok ps →
+    (∀ p ∈ acc, indivisible p = true) → ∀ p ∈ ps, indivisible p = true := by
+  intro f
+  induction f with
+  | zero => intro stack acc ps h; simp [splitLoop] at h
+  | succ f ih =>
+    intro stack acc ps h hacc
+    cases stack with
+    | nil => simp only [splitLoop] at h; cases h; exact hacc
+    | cons e stack =>
+      simp only [splitLoop] at h
+      split at h
+      · exact ih stack acc ps h hacc
+      · split at h
+        · cases h
+        · obtain ⟨e', he', h⟩ := bind_ok h
+          have hs := (presplit_shape _).1 e e' he'
+          have appendCase : isAnd e' = false → splitLoop f stack (acc ++ [e']) = .ok ps → ∀ p ∈ ps, indivisible p = true := by
+            intro hna h2
+            apply ih stack (acc ++ [e']) ps h2
+            intro p hp
+            rcases List.mem_append.1 hp with hp | hp
+            · exact hacc p hp
+            · simp only [List.mem_singleton] at hp; subst hp
+              rcases hs with hs | hs
+              · rw [hna] at hs; cases hs
+              · exact hs
+          split at h
+          · rename_i t op a b
+            split at h
+            · exact ih _ acc ps h hacc
+            · rename_i hop; exact appendCase (by simpa [isAnd] using hop) h
+          · rename_i hnb
+            refine appendCase ?_ h
+            cases e' with
+            | bin t op a b => exact absurd rfl (hnb t op a b)
+            | _ => rfl
+
+/-- **C09 (shape)**: none of the returned expressions is a conjunction, a negated disjunction, a negated implication,
+    a double negation, a negated existential quantifier or a universal quantifier over a conjunction -/
+theorem splitAnd_indivisible (e : Expr) (ps : List Expr) (h : splitAnd e = .ok ps) : ∀ p ∈ ps, indivisible p = true :=
+  splitLoop_indivisible _ [e] [] ps h (by simp)
+
+/-- **C09 (ValueError)**: the only failure other than fuel/constructor errors is a literally false conjunct -/
+theorem isFalseLit_truth (ρ : Env) (opq : Opaque) (e : Expr) (h : isFalseLit e = true) : truth opq ρ e = some false := by
+  cases e with
+  | lit t k lv => cases lv with
+    | bool b => cases b <;> simp_all [isFalseLit, truth_lit_bool]
+    | _ => simp [isFalseLit] at h
+  | _ => simp [isFalseLit] at h
+
+/-- non-vacuity: `not (b or c)` and `forall i in xs: (@i > 0 and b)` are split -/
+def sB : Expr := .field 1 (.this 64) "b"
+def sC : Expr := .field 1 (.this 64) "c"
+example : (splitAnd (.un 1 "not" (.bin 1 "or" sB sC))).toOption.map List.length = some 2 := by rfl
+example : (splitAnd (.quant 1 .all "i" (.field 8 (.this 64) "xs") (.bin 1 "and" (.bin 1 ">" (.var 2 "i") (.lit 2 "0" (.int 0))) sB))).toOption.map List.length = some 2 := by rfl
 
 end Hpl
